@@ -1193,9 +1193,12 @@ func (s *State) evalStringInfixExpression(operator token.Type, left, right objec
 		rightVal := right.(object.String).Value
 		return object.String{Value: leftVal + rightVal}
 	case operator == token.ASTERISK && rightIsInt:
-		n := len(leftVal) * int(rightVal)
 		if rightVal < 0 {
 			return s.Errorf("right operand of * on strings must be a positive integer, got %d", rightVal)
+		}
+		n := math.MaxInt // saturates when the product overflows: the guard below then refuses it.
+		if len(leftVal) == 0 || int(rightVal) <= math.MaxInt/len(leftVal) {
+			n = len(leftVal) * int(rightVal)
 		}
 		object.MustBeOk(n / object.ObjectSize)
 		return object.String{Value: strings.Repeat(leftVal, int(rightVal))}
@@ -1217,7 +1220,14 @@ func (s *State) evalArrayInfixExpression(operator token.Type, left, right object
 		if rightVal < 0 {
 			return s.NewError("right operand of * on arrays must be a positive integer")
 		}
-		result := object.MakeObjectSlice(len(leftVal) * int(rightVal))
+		if len(leftVal) == 0 {
+			return left // nothing to repeat (and no reason to loop rightVal times).
+		}
+		n := math.MaxInt // saturates when the product overflows: the guard then refuses it.
+		if int(rightVal) <= math.MaxInt/len(leftVal) {
+			n = len(leftVal) * int(rightVal)
+		}
+		result := object.MakeObjectSlice(n)
 		for range rightVal {
 			result = append(result, leftVal...)
 		}
